@@ -42,10 +42,10 @@ Hypothesis Hfuns : forall f ps b, lookup f sfuns = Some (ps, b) ->
             Forall (fun x => reserved x = false) ps /\ wfb b.
 Hypothesis Hctor1 : forall u c, ctor_ok u c true ->
   lookup (ctor_name u c) gfuncs =
-  Some (["v"%string], [GSReturn (GStructLit (case_struct u c) [("Value"%string, GVar "v"%string)])]).
+  Some (["v"%string], [GSReturn (GStructLit (case_struct u c) ["Value"%string] [("Value"%string, GVar "v"%string)])]).
 Hypothesis Hctor0 : forall u c, ctor_ok u c false ->
   lookup (ctor_name u c) gfuncs = None /\
-  lookup (ctor_name u c) gvars = Some (GStructLit (case_struct u c) []).
+  lookup (ctor_name u c) gvars = Some (GStructLit (case_struct u c) [] []).
 
 (** ** equiv *)
 Lemma equiv_refl g : equiv g g.
@@ -195,23 +195,23 @@ Proof.
     eapply G_libcall; [apply Gs_close; intros; apply IHs; eassumption|].
     apply Gl_pure; [destruct T as [T|T]; rewrite T; reflexivity|].
     apply tuple_pure; [apply (pevals_length _ _ _ _ Ps)|assumption].
-  - intros k n fs es gvs Ps IHs L t.
-    change (compile k (ERecord n fs es)) with (GStructLit n (combine fs (compile_list k es))).
+  - intros k n decl fs es gvs gfs Ps IHs L A t.
+    change (compile k (ERecord n decl fs es)) with (GStructLit n decl (combine fs (compile_list k es))).
     assert (Lc : List.length fs = List.length (compile_list k es)) by (rewrite compile_list_length; assumption).
-    rewrite <- (combine_fst fs (compile_list k es) Lc) at 2.
-    apply G_struct. rewrite (combine_snd _ _ Lc). apply Gs_close; intros; apply IHs; eassumption.
+    eapply G_struct.
+    + rewrite (combine_snd _ _ Lc). apply Gs_close; intros; apply IHs; eassumption.
+    + rewrite (combine_fst _ _ Lc). exact A.
   - intros. cbn [compile]. eapply G_sel; eauto.
   - intros k u c Hc Le t. cbn [compile]. destruct (Hctor0 _ _ Hc) as (L1 & L2).
     eapply G_var_pkgvar; [exact Le|exact L1|exact L2|].
-    change (@nil (string * gval)) with (combine (map fst (@nil (string * gexpr))) (@nil gval)).
-    apply G_struct. apply Gs_nil.
+    eapply G_struct; [apply Gs_nil|reflexivity].
   - intros k u c a ga Hc Le Pa IHa t. cbn [compile]. eapply G_call.
     + apply G_var. unfold GoRules.glookup. rewrite Le. rewrite (Hctor1 _ _ Hc). reflexivity.
     + eapply Gs_cons; [apply IHa|apply Gs_nil].
     + change (GVStruct (case_struct u c) [("Value"%string, ga)])
-        with (ret_val (Some (GVStruct (case_struct u c) (combine (map fst [("Value"%string, GVar "v"%string)]) [ga])))).
-      eapply Ga_clo; [reflexivity|]. eapply Gx_return. apply G_struct.
-      cbn [map snd]. eapply Gs_cons; [|apply Gs_nil]. apply G_var. reflexivity.
+        with (ret_val (Some (GVStruct (case_struct u c) [("Value"%string, ga)]))).
+      eapply Ga_clo; [reflexivity|]. eapply Gx_return.
+      eapply G_struct; [cbn [map snd]; eapply Gs_cons; [apply G_var; reflexivity|apply Gs_nil]|reflexivity].
   - intros k es gvs Ps IHs t.
     change (compile k (ESlice es)) with (GSliceLit (compile_list k es)).
     apply G_slice. apply Gs_close; intros; apply IHs; eassumption.
@@ -226,6 +226,31 @@ Lemma pevals_Gevals env : forall args k gws rest t rvs t',
   pevals env k args gws -> Gevals env rest t rvs t' ->
   Gevals env (compile_list k args ++ rest) t (gws ++ rvs) t'.
 Proof. intros args k gws rest t rvs t' P G. apply (proj2 (peval_Geval_mut env) _ _ _ P); exact G. Qed.
+
+(** ** arranging the fields of a record value *)
+Lemma lookup_rel f : forall fs gfs v,
+  Forall2 (fun a b => fst a = fst b /\ vrel (snd a) (snd b)) fs gfs ->
+  lookup f fs = Some v -> exists gv, lookup f gfs = Some gv /\ vrel v gv.
+Proof.
+  induction fs as [|[g w] fs IH]; intros gfs v F L; cbn in L; [discriminate|].
+  inversion F as [|? [g' gw] ? ? [Eq Vw] F']; subst. cbn in Eq, Vw; subst g'. cbn.
+  destruct (String.eqb f g); [inversion L; subst; eauto|eauto].
+Qed.
+
+Lemma arrange_rel decl : forall a ga fs,
+  Forall2 (fun a b => fst a = fst b /\ vrel (snd a) (snd b)) a ga ->
+  arrange decl a = Some fs ->
+  exists gfs, arrange decl ga = Some gfs /\ Forall2 (fun a b => fst a = fst b /\ vrel (snd a) (snd b)) fs gfs.
+Proof.
+  unfold arrange. induction decl as [|f decl IH]; intros a ga fs F H; cbn in H |- *.
+  - inversion H; subst. exists []; split; [reflexivity|constructor].
+  - destruct (lookup f a) as [v|] eqn:L; cbn in H; [|discriminate].
+    destruct (all_some (map (fun f0 => option_map (pair f0) (lookup f0 a)) decl)) as [r|] eqn:R; cbn in H; [|discriminate].
+    inversion H; subst.
+    destruct (lookup_rel _ _ _ _ F L) as (gv & Lg & V). rewrite Lg. cbn.
+    destruct (IH _ _ _ F R) as (gr & Rg & Fr). rewrite Rg. cbn.
+    eexists; split; [reflexivity|]. constructor; [cbn; auto|exact Fr].
+Qed.
 
 (** ** unit blocks *)
 Lemma check_unit_inv u v t v' t' :
